@@ -131,7 +131,7 @@ func cmdVerify(args []string) int {
 		}
 	} else {
 		for n, c := range e.contracts {
-			if e.funcs[n] == nil || c.Trusted {
+			if (e.funcs[n] == nil && !c.IsLemma) || c.Trusted {
 				continue
 			}
 			if *prop == "" || contains(c.Props, *prop) {
@@ -148,7 +148,13 @@ func cmdVerify(args []string) int {
 			rep.Props = c.Props
 		}
 		ts := time.Now()
-		fc := e.newFnCtx(fn)
+		var fc *FnCtx
+		isLemma := fn == nil
+		if isLemma {
+			fc = e.newLemmaCtx(e.contracts[n])
+		} else {
+			fc = e.newFnCtx(fn)
+		}
 		func() {
 			defer func() {
 				if r := recover(); r != nil {
@@ -158,7 +164,13 @@ func cmdVerify(args []string) int {
 					}
 				}
 			}()
-			if err := fc.Translate(); err != nil {
+			var err error
+			if isLemma {
+				err = fc.TranslateLemma()
+			} else {
+				err = fc.Translate()
+			}
+			if err != nil {
 				rep.Error = err.Error()
 			}
 		}()
